@@ -2,6 +2,7 @@ package sx
 
 import (
 	"fmt"
+	"os"
 	"go/token"
 	"sort"
 	"sync"
@@ -273,6 +274,33 @@ func (p *Pool) ExploreAll(jobs []Job) []*HarnessResult {
 	}
 	var mu sync.Mutex
 	var wg sync.WaitGroup
+	stopProgress := make(chan struct{})
+	if os.Getenv("VERIF_PROGRESS") != "" {
+		go func() {
+			tk := time.NewTicker(15 * time.Second)
+			defer tk.Stop()
+			for {
+				select {
+				case <-stopProgress:
+					return
+				case <-tk.C:
+					mu.Lock()
+					for i, r := range results {
+						if inflight[i] > 0 || (r.Paths > 0 && !over[i]) {
+							fmt.Fprintf(os.Stderr, "  progress %s: paths=%d done=%d infeasible=%d inflight=%d ces=%d\n", r.Name, r.Paths, r.Done, r.Infeasible, inflight[i], len(r.CEs))
+						}
+					}
+					for _, m := range p.Ms {
+						if m.inPath {
+							fmt.Fprintf(os.Stderr, "    machine: steps=%d pc=%d trace=%d queries=%d in %s\n", m.steps, len(m.pc), len(m.trace), m.S.Stats.Queries, m.curFn)
+						}
+					}
+					mu.Unlock()
+				}
+			}
+		}()
+	}
+	defer close(stopProgress)
 	for _, m := range p.Ms {
 		m.S.Stats = solver.Stats{}
 		m.Stats = MStats{Unsupported: map[string]int{}, Internal: map[string]int{}}
